@@ -262,9 +262,10 @@ static std::string fmt_mat(const MatT& A) { return fmt_dense(Mat<T>(A)); }
 static std::string fmt_pat(const MatT& A) { return fmt_sparse(A); }
 #endif
 
-static std::string pfx;
-static Solver* g_cur = nullptr;
-static std::string g_trace;
+static thread_local std::string pfx;
+static thread_local Solver* g_cur = nullptr;
+static thread_local std::string g_trace;
+static thread_local std::ostringstream* g_out = nullptr;
 static void on_fact_call(long k, bool fail)
 {
     if (!g_cur) return;
@@ -272,7 +273,7 @@ static void on_fact_call(long k, bool fail)
     os << " " << k << ":" << g_cur->m_result.info.iter << ":" << g_cur->m_result.info.factor_retires << ":" << (int) g_cur->m_enable_iterative_refinement << ":" << (fail ? 1 : 0);
     g_trace += os.str();
 }
-static void out(const std::string& k, const std::string& v) { std::cout << pfx << k << " " << v << "\n"; }
+static void out(const std::string& k, const std::string& v) { (*g_out) << pfx << k << " " << v << "\n"; }
 
 static void dump_data(Solver& S)
 {
@@ -319,92 +320,125 @@ template<typename O, typename X> static optional<O> mk_opt(bool present, const X
     if (present) return optional<O>(O(x)); return nullopt;
 }
 
+// runs one case (tokens [b,e)) and returns its observation lines
+static std::string run_case(const std::vector<std::string>& toks, size_t b, size_t e, const void* dirty_mem_unused)
+{
+    Tok tk; tk.t.assign(toks.begin() + b, toks.begin() + e);
+    std::ostringstream os; g_out = &os;
+    std::string k = tk.next();
+    if (k != "CASE") { fprintf(stderr, "expected CASE, got %s\n", k.c_str()); exit(2); }
+    std::string name = tk.next();
+    // default-initialisation on purpose: `new Solver()` would zero-fill the object first and hide reads of unset members
+    std::unique_ptr<Solver> S(new Solver);
+    vhook::reset_fault_plan();
+    int opno = 0;
+#if SCALAR == 0
+    xr::g().nonfinite_arith = false; xr::g().nonfinite_count = 0; xr::g().tainted_compare = 0; xr::g().cp_bits = 0;
+#endif
+    while (true)
+    {
+        std::string op = tk.next();
+        if (op == "ENDCASE") break;
+        pfx = name + "." + std::to_string(opno) + ".";
+        if (op == "SET") { std::string key = tk.next(); std::string val = tk.next(); set_setting(S->settings(), key, val); continue; }
+        if (op == "JUNK") {
+#if SCALAR == 0
+            xr::g().junk_mode = (int) tk.nextl();
+#else
+            tk.nextl();
+#endif
+            continue; }
+        if (op == "CPBITS") {
+            long kb = tk.nextl();
+#if SCALAR == 0
+            xr::g().cp_bits = kb;
+#endif
+            (void) kb; continue; }
+        if (op == "FAULTS") { long n = tk.nextl(); std::vector<int> plan; for (long i = 0; i < n; i++) plan.push_back((int) tk.nextl()); vhook::set_fault_plan(plan); continue; }
+        if (op == "SETUP" || op == "UPDATE")
+        {
+            bool reuse = true;
+            if (op == "UPDATE") reuse = tk.nextl() != 0;
+            Blocks B = read_blocks(tk);
+            MatT P, A, G;
+            if (B.P.present) P = build(B.P);
+            if (B.A.present) A = build(B.A);
+            if (B.G.present) G = build(B.G);
+#if BACKEND == 0
+            typedef CMatRef<T> MR;
+#else
+            typedef CSparseMatRef<T, IdxT> MR;
+#endif
+            typedef CVecRef<T> VR;
+            optional<MR> oP = mk_opt<MR>(B.P.present, P), oA = mk_opt<MR>(B.A.present, A), oG = mk_opt<MR>(B.G.present, G);
+            optional<VR> oc = mk_opt<VR>(B.c.present, B.c.v), ob = mk_opt<VR>(B.b.present, B.b.v), oh = mk_opt<VR>(B.h.present, B.h.v),
+                         olb = mk_opt<VR>(B.lb.present, B.lb.v), oub = mk_opt<VR>(B.ub.present, B.ub.v);
+            if (op == "SETUP") {
+                if (!B.P.present || !B.c.present) { fprintf(stderr, "setup needs P and c\n"); exit(2); }
+                S->setup(*oP, *oc, oA, ob, oG, oh, olb, oub);
+                out("op", "setup");
+            } else {
+                S->update(oP, oc, oA, ob, oG, oh, olb, oub, reuse);
+                out("op", std::string("update ") + (reuse ? "1" : "0"));
+            }
+            if (S->m_setup_done) dump_data(*S);
+            opno++;
+            continue;
+        }
+        if (op == "SOLVE")
+        {
+            g_cur = S.get(); g_trace.clear(); vhook::fs().on_call = on_fact_call;
+            Status st = S->solve();
+            g_cur = nullptr;
+            out("op", "solve");
+            dump_result(*S, st);
+            out("fact_calls", std::to_string(vhook::fact_calls()));
+            out("trace", g_trace);
+#if SCALAR == 0
+            out("nonfinite", std::to_string((int) xr::g().nonfinite_arith));
+#endif
+            opno++;
+            continue;
+        }
+        fprintf(stderr, "bad op %s\n", op.c_str()); exit(2);
+    }
+    g_out = nullptr;
+    return os.str();
+}
+
+#include <thread>
+#include <atomic>
 int main(int argc, char** argv)
 {
     std::ios::sync_with_stdio(false);
     std::istream* in = &std::cin; std::ifstream f;
-    if (argc > 1) { f.open(argv[1]); if (!f) { fprintf(stderr, "cannot open %s\n", argv[1]); return 2; } in = &f; }
-    Tok tk; { std::string w; while (*in >> w) tk.t.push_back(w); }
-    int rc = 0;
-    while (!tk.eof())
-    {
-        std::string k = tk.next();
-        if (k != "CASE") { fprintf(stderr, "expected CASE, got %s\n", k.c_str()); return 2; }
-        std::string name = tk.next();
-        std::unique_ptr<Solver> S(new Solver());
-        vhook::reset_fault_plan();
-        int opno = 0;
-#if SCALAR == 0
-        xr::g().nonfinite_arith = false; xr::g().nonfinite_count = 0; xr::g().tainted_compare = 0;
-#endif
-        // keep matrices alive per op
-        while (true)
-        {
-            std::string op = tk.next();
-            if (op == "ENDCASE") break;
-            pfx = name + "." + std::to_string(opno) + ".";
-            if (op == "SET") { std::string key = tk.next(); std::string val = tk.next(); set_setting(S->settings(), key, val); continue; }
-            if (op == "JUNK") {
-#if SCALAR == 0
-                xr::g().junk_mode = (int) tk.nextl();
-#else
-                tk.nextl();
-#endif
-                continue; }
-            if (op == "CPBITS") {
-                long k = tk.nextl();
-#if SCALAR == 0
-                xr::g().cp_bits = k;
-#endif
-                (void) k; continue; }
-            if (op == "FAULTS") { long n = tk.nextl(); std::vector<int> plan; for (long i = 0; i < n; i++) plan.push_back((int) tk.nextl()); vhook::set_fault_plan(plan); continue; }
-            if (op == "SETUP" || op == "UPDATE")
-            {
-                bool reuse = true;
-                if (op == "UPDATE") reuse = tk.nextl() != 0;
-                Blocks B = read_blocks(tk);
-                MatT P, A, G;
-                if (B.P.present) P = build(B.P);
-                if (B.A.present) A = build(B.A);
-                if (B.G.present) G = build(B.G);
-#if BACKEND == 0
-                typedef CMatRef<T> MR;
-#else
-                typedef CSparseMatRef<T, IdxT> MR;
-#endif
-                typedef CVecRef<T> VR;
-                optional<MR> oP = mk_opt<MR>(B.P.present, P), oA = mk_opt<MR>(B.A.present, A), oG = mk_opt<MR>(B.G.present, G);
-                optional<VR> oc = mk_opt<VR>(B.c.present, B.c.v), ob = mk_opt<VR>(B.b.present, B.b.v), oh = mk_opt<VR>(B.h.present, B.h.v),
-                             olb = mk_opt<VR>(B.lb.present, B.lb.v), oub = mk_opt<VR>(B.ub.present, B.ub.v);
-                if (op == "SETUP") {
-                    if (!B.P.present || !B.c.present) { fprintf(stderr, "setup needs P and c\n"); return 2; }
-                    S->setup(*oP, *oc, oA, ob, oG, oh, olb, oub);
-                    out("op", "setup");
-                } else {
-                    S->update(oP, oc, oA, ob, oG, oh, olb, oub, reuse);
-                    out("op", std::string("update ") + (reuse ? "1" : "0"));
-                }
-                if (S->m_setup_done) dump_data(*S);
-                opno++;
-                continue;
-            }
-            if (op == "SOLVE")
-            {
-                g_cur = S.get(); g_trace.clear(); vhook::fs().on_call = on_fact_call;
-                Status st = S->solve();
-                g_cur = nullptr;
-                out("op", "solve");
-                dump_result(*S, st);
-                out("fact_calls", std::to_string(vhook::fact_calls()));
-                out("trace", g_trace);
-#if SCALAR == 0
-                out("nonfinite", std::to_string((int) xr::g().nonfinite_arith));
-#endif
-                opno++;
-                continue;
-            }
-            fprintf(stderr, "bad op %s\n", op.c_str()); return 2;
-        }
+    int nthreads = 0; const char* path = nullptr;
+    for (int i = 1; i < argc; i++) { if (std::string(argv[i]) == "--threads" && i + 1 < argc) nthreads = atoi(argv[++i]); else path = argv[i]; }
+    if (path) { f.open(path); if (!f) { fprintf(stderr, "cannot open %s\n", path); return 2; } in = &f; }
+    std::vector<std::string> toks; { std::string w; while (*in >> w) toks.push_back(w); }
+    std::vector<std::pair<size_t, size_t>> spans;
+    for (size_t i = 0; i < toks.size();) {
+        if (toks[i] != "CASE") { fprintf(stderr, "expected CASE, got %s\n", toks[i].c_str()); return 2; }
+        size_t j = i; while (j < toks.size() && toks[j] != "ENDCASE") j++;
+        if (j >= toks.size()) { fprintf(stderr, "missing ENDCASE\n"); return 2; }
+        spans.push_back({i, j + 1}); i = j + 1;
     }
-    return rc;
+    // observations go to the file named by VERIF_OBS_FILE if set (keeps them apart from the library's own prints), else to stdout
+    std::ofstream obsf; std::ostream* obs = &std::cout;
+    if (const char* of = getenv("VERIF_OBS_FILE")) { obsf.open(of); obs = &obsf; }
+    std::vector<std::string> results(spans.size());
+    if (nthreads <= 1) {
+        for (size_t c = 0; c < spans.size(); c++) { results[c] = run_case(toks, spans[c].first, spans[c].second, nullptr); (*obs) << results[c]; obs->flush(); }
+    } else {
+#if SCALAR == 0
+        fprintf(stderr, "--threads is only supported for built-in scalars\n"); return 2;
+#else
+        std::atomic<size_t> next(0);
+        std::vector<std::thread> th;
+        for (int t = 0; t < nthreads; t++) th.emplace_back([&]() { for (;;) { size_t c = next++; if (c >= spans.size()) break; results[c] = run_case(toks, spans[c].first, spans[c].second, nullptr); } });
+        for (auto& t : th) t.join();
+        for (auto& r : results) (*obs) << r;
+#endif
+    }
+    return 0;
 }
